@@ -180,6 +180,59 @@ func c19Requests(cfgName string, confirm, jsonMode, wideWhitelist bool, dl time.
 							report("panic", "", firstLineOf(o.Panic), caseStr)
 							continue
 						}
+						// fault dimension: for every valid request (and the plain invalid ones) each backend call the
+						// request makes is failed in turn; the safety half of the statement holds regardless
+						if class != "invalid" || mask == 0 {
+							for k, call := range o.SeamCalls {
+								fw := table.Clone()
+								s.FaultAt = k
+								fo := flows.Exec(s, fw, rq, "")
+								s.FaultAt = -1
+								world.TakeLastArbitrary()
+								if len(fo.FaultFired) == 0 {
+									continue
+								}
+								res.Evaluations++
+								res.Cover["fault:"+class]++
+								res.Distinct["fault:"+class+"@"+call] = true
+								fcase := caseStr + fmt.Sprintf(" !fault(call #%d %s)", k, call)
+								if fo.Panic != "" {
+									report("panic", "fault="+call, firstLineOf(fo.Panic), fcase)
+									continue
+								}
+								var added []string
+								for u := range fw.DB.Users {
+									if _, ok := table.DB.Users[u]; !ok {
+										added = append(added, u)
+									}
+								}
+								for u, r := range table.DB.Users {
+									if !reflect.DeepEqual(r, fw.DB.Users[u]) {
+										report("other-row-changed", "fault="+call, "under a backend failure registration changed the existing row "+u, fcase)
+									}
+								}
+								if class != "valid-new" && (len(added) != 0 || fo.UIDAfter() != "") {
+									report("table-changed", "class="+class+",fault="+call, fmt.Sprintf("under a backend failure a registration that must create nothing created %v / logged in %q", added, fo.UIDAfter()), fcase)
+								}
+								if class == "valid-new" {
+									if len(added) > 1 || len(added) == 1 && added[0] != pid {
+										report("not-exactly-one-account", "fault="+call, fmt.Sprintf("under a backend failure a valid registration of %q created the rows %v", pid, added), fcase)
+									}
+									if u := fo.UIDAfter(); u != "" && (confirm || u != pid || len(added) != 1) {
+										report("logged-in-before-confirmation", "fault="+call, fmt.Sprintf("under a backend failure the registration logged in %q (confirmation in force: %v, rows created: %v)", u, confirm, added), fcase)
+									}
+									if len(added) == 1 {
+										row := fw.DB.Users[added[0]]
+										if row.Password == pass || bcrypt.CompareHashAndPassword([]byte(row.Password), []byte(pass)) != nil {
+											report("password-not-hashed", "fault="+call, "under a backend failure the stored password is not a bcrypt hash of the submitted one", fcase)
+										}
+										if confirm && row.Confirmed {
+											report("created-confirmed", "fault="+call, "under a backend failure the new account is stored as confirmed with e-mail confirmation in force", fcase)
+										}
+									}
+								}
+							}
+						}
 						switch class {
 						case "invalid", "valid-existing":
 							if !dbEqual(table.DB, w.DB) {
@@ -402,7 +455,7 @@ func c19Rules(shard, nShards, maxLen int, minima []int, dl time.Time) engine.Uni
 func init() {
 	engine.Register(&engine.Property{
 		ID: "C19", Level: "exploration",
-		Rule: "(a) complete product of registration bodies: email {new, existing, case variant, malformed, blank, missing, duplicated} x password {compliant, one class short of each minimum, 7 bytes, whitespace, blank, missing, duplicated} x confirm_password {equal, different, missing} x every subset of 7 hostile extra fields (incl. names that extend a whitelisted name), from an empty table and one holding the account, with/without confirm, form/JSON, two whitelists, against a reference validator; (b) Rules.IsValid against an independent reference for every string up to the tier's length over {A,a,1,!,space,TAB} x a grid of rule settings; classes = (validity class, email class, password class) triples",
+		Rule: "(a) complete product of registration bodies: email {new, existing, case variant, malformed, blank, missing, duplicated} x password {compliant, one class short of each minimum, 7 bytes, whitespace, blank, missing, duplicated} x confirm_password {equal, different, missing} x every subset of 7 hostile extra fields (incl. names that extend a whitelisted name), from an empty table and one holding the account, with/without confirm, form/JSON, two whitelists, against a reference validator, and for every valid request (and the plain invalid ones) each backend call failed in turn (safety half only); (b) Rules.IsValid against an independent reference for every string up to the tier's length over {A,a,1,!,space,TAB} x a grid of rule settings; classes = (validity class, email class, password class) triples",
 		Units: func(tier string) []engine.Unit {
 			var us []engine.Unit
 			for _, confirm := range []bool{false, true} {
@@ -424,7 +477,7 @@ func init() {
 			}
 			return us
 		},
-		Need:        []string{"invalid", "valid-new", "valid-existing", "accept", "reject"},
+		Need:        []string{"invalid", "valid-new", "valid-existing", "fault:valid-new", "fault:valid-existing", "accept", "reject"},
 		Assumptions: []string{"lengths are counted in bytes and only ASCII class representatives are used (the byte/character distinction is out of scope by the property's quantifier)", "which fields a validation error map names is not compared"},
 	})
 }
